@@ -22,15 +22,24 @@ def crEq : Composer.CR → Composer.CR → Bool
   | .blowup, .blowup => true
   | _, _ => false
 
+/-- an operation whose pointers spell an array index in a way `strconv.Atoi` reads but RFC 6901
+    does not allow (`+1`, `01`, `-0`) -/
+def nonRfcIndex (op : Json) : Bool :=
+  ["path", "from"].any fun k =>
+    match (op.get? k).bind Json.str? with
+    | some ptr => ((splitSlash ptr.toList).drop 1).any fun t =>
+        let s := decodeKey t
+        (atoi? s).isSome && (rfcIndex? s).isNone && s != "-"
+    | none => false
+
 /-- first ietf operation on which the library and RFC 6902 part ways, as `<kind>/<relation>` -/
 def firstDeviation (doc : Json) (patches : List Json) : Option String :=
   let rec goOps (d : Json) : List Json → Option String ⊕ Json
     | [] => .inr d
     | op :: rest =>
       let kind := Lib.opString op "op"
-      let lib := match Lib.applyOp d op with
-        | .panic => R.err
-        | r => r
+      let kind := if nonRfcIndex op then kind ++ "/index-spelling" else kind
+      let lib := Lib.applyGuarded d op
       match lib, Rfc.applyOp d op with
       | .ok a, some b => if a.normalize == b.normalize then goOps a rest else .inl (some (kind ++ "/result-differs"))
       | .ok _, none => .inl (some (kind ++ "/accepts-what-rfc-refuses"))
